@@ -134,7 +134,9 @@ TagExplained(conf, L, before, after, r) ==
   LET a == Img(after, r)
       b == Img(before, r)
   IN \/ \E p \in L : TRef(p) = r /\ a \in Acceptable(conf, before, p) \cup {b}
-     \/ \E p \in BkOwners(conf, L, before, r) : a \in {Img(before, TRef(p)), b}
+     \* a backup name is written only for a tag that is really overwritten
+     \/ a = b /\ BkOwners(conf, L, before, r) # {}
+     \/ \E p \in BkOwners(conf, L, before, r) : a = Img(before, TRef(p)) /\ Img(after, TRef(p)) # Img(before, TRef(p))
      \/ \E p \in DigOwners(conf, L, before, r) : a \in {Img(before, <<"src", p.srepo, r[3]>>), b}
 DestRepos(conf, L, before) ==
   {<<"tgt", p.trepo>> : p \in L} \cup
